@@ -168,6 +168,16 @@ CHECKS = {
               'index is mutated to out-of-range and negative values that must raise ValueError, and json_to_weights is compared with an '
               'independent evaluation of random physical/expand/vaxes/default specifications.'),
         design_ref='DESIGN.md §4 C14'),
+    'C17': dict(
+        technique='boundary monitor on conjoin_hrgs with hooks on nonterminal_pairs/conjoin_rules; independent conjoinability predicate and derivation-tree enumeration to a depth bound, checked for a bijection (runtime monitoring)',
+        text=('Runtime monitoring: pairs of HRGs built over shared skeletons (several rules per skeleton, skeletons in one grammar only, differing '
+              'externals/attachments, own and shared terminals, name-clash strata such as "X"+"Y,Z" vs "X,Y"+"Z" and a terminal literally called '
+              '"<X,P>", genuine terminal conflicts) are conjoined by the real function. Hooks expose the label pairing and the rule pair behind '
+              'every conjoined rule; the monitor checks that the conjoined rules are exactly the conjoinable pairs (independent predicate), that '
+              'each carries the nodes, externals, one paired nonterminal edge per shared edge and the terminal edges of both rules, that paired '
+              'names are unique and collide with nothing, that conflicts raise ValueError, and that the derivation trees of the result up to depth '
+              '4/6 are in bijection with the independently enumerated pairs of derivation trees of the inputs.'),
+        design_ref='DESIGN.md §4 C17'),
 }
 
 NOT_BUILT = {}
